@@ -17,6 +17,12 @@ The model reads the step's configuration VALUE itself (Cmd.parseCmdConfig, mirro
 create_command); the harness only replaces placeholders by real command lines and paths. The constructors are
 tied separately on generated configuration values incl. malformed ones (check_parse: no process is started).
 
+An instruction may be declared any number of times: identical entries at top level (the same string, the same
+serial sub-list, the same map - a copy or the very same object, a yaml alias), identical instructions inside one
+`run` list / one sub-list. A P's `id` names its content; every observation is per OCCURRENCE: each process claims
+the next free slot of its instruction when it starts (impl_c17.CHILD), started / finished / failed / results are
+multisets resp. sequences of ids, and "every declared top-level entry is started" is judged by counting.
+
 Every case runs in a process group of its own under a deadline (impl.isolated): a step that never returns
 (an event loop that never finishes, a pipe nobody drains) is the observation `hang` and the violation
 "<kind>:step-never-returned", never a hang of the check. For the concurrent steps the moment the step returns
@@ -24,6 +30,7 @@ is observed too: every command it started must have finished by then ("wait for 
 """
 from __future__ import annotations
 
+import collections
 import copy
 import itertools
 import json
@@ -51,6 +58,10 @@ ASSUMPTIONS = [
     'the model (the driver rejects them)',
     'OS scheduling of concurrent commands is replaced by the release protocol: completion order = the order in '
     'which the harness lets the processes exit (each exit is awaited, incl. reaping, before the next release)',
+    'the processes of one and the same instruction (identical entries) are interchangeable: the release protocol '
+    'lets "one of them" exit; the generators put an instruction into two concurrent lanes only where the same '
+    'instructions follow it in both, and - concurrent steps - an instruction of a command that redirects to a file '
+    'occurs in that command only (the driver rejects the rest as outside the model)',
     'under a shell (shell/shells) a missing or non-executable program is an ordinary exit 127/126 of the shell, '
     'not a spawn error: there the only unstartable commands generated are those of a map with a missing cwd',
 ]
@@ -455,6 +466,195 @@ def redirect_cases(env):
     return dedup(cases)
 
 
+# -- identical entries -----------------------------------------------------
+
+def dup_ok(cfg, is_async):
+    """Where identical instructions may sit. Everywhere in the synchronous steps. In the concurrent steps the
+    processes of one instruction must be interchangeable for the release protocol (`fin i` = one of them exits):
+    an instruction that occurs in two lanes is followed by the same instructions in each; and the model resolves a
+    finished process by its id when it writes to a file: an instruction of a command that redirects to a file
+    occurs in that command only."""
+    try:
+        impl.world_of(cfg, is_async)
+        impl.cfg_value(cfg)
+    except ValueError:
+        return False
+    if not is_async:
+        return True
+    cmds = impl.commands(cfg)
+
+    def files(c):
+        return [c[k]['file'] for k in ('stdout', 'stderr') if isinstance(c[k], dict)]
+    allf = [f for c in cmds for f in files(c)]
+    if len(set(allf)) != len(allf):
+        return False
+    for a, c in enumerate(cmds):
+        for d in cmds[a + 1:]:
+            if (files(c) or files(d)) and {p['id'] for p in c['procs']} & {p['id'] for p in d['procs']}:
+                return False
+    where = {}
+    lanes = [[p['id'] for p in e] for c in cmds if not impl.bad_target(c) for e in c['entries']]
+    for li, lane in enumerate(lanes):
+        for j, i in enumerate(lane):
+            where.setdefault(i, []).append((li, tuple(lane[j + 1:])))
+    for i, occ in where.items():
+        if len({li for li, _ in occ}) > 1 and len({suf for _, suf in occ}) > 1:
+            return False
+    # workers that wait for each other: all of them must be first in a lane of their own
+    for i, occ in where.items():
+        p = impl.all_procs_serial(cfg)[i]
+        if p.get('rdv'):
+            firsts = sum(1 for lane in lanes if lane and lane[0] == i)
+            if firsts != len(occ) or p['rdv'] > firsts or any(impl.bad_target(c) for c in cmds):
+                return False
+    return True
+
+
+def total_procs(cfg):
+    return sum(len(c['procs']) for c in impl.commands(cfg))
+
+
+def add_dups(rng, cfg, is_async):
+    """Random stream: declare something a second time - a top-level entry (a copy, or the same object again), an
+    instruction inside a `run` list / a serial sub-list, an entry of a `run` list. None when the result is outside
+    what dup_ok allows."""
+    cfg = copy.deepcopy(cfg)
+    if 'list' not in cfg:
+        cfg = {'list': [cfg]}
+    items = cfg['list']
+    inner = []      # lists of P / of entries in which an element can be repeated
+    for it in items:
+        if 'sub' in it:
+            inner.append(it['sub'])
+        elif 'map' in it and 'list' in it['map']['run']:
+            inner.append(it['map']['run']['list'])
+            inner += [e['sub'] for e in it['map']['run']['list'] if 'sub' in e]
+    if inner and rng.random() < 0.45:
+        xs = rng.choice(inner)
+        j = rng.randrange(len(xs))
+        pos = rng.choice((j + 1, len(xs)))
+        if 'sub' in xs[j] and rng.random() < 0.4 and not any('ref' in x for x in xs):
+            xs.insert(pos, {'ref': j})
+        else:
+            xs.insert(pos, copy.deepcopy(xs[j]))
+    else:
+        j = rng.randrange(len(items))
+        pos = rng.choice((j + 1, len(items)))
+        if rng.random() < 0.35:
+            items.insert(pos, {'ref': j})
+        else:
+            items.insert(pos, copy.deepcopy(items[j]))
+    return cfg if dup_ok(cfg, is_async) else None
+
+
+def W(i, code=0, **kw):
+    return {'id': i, 'code': code, 'out': 'o%d\n' % i, 'err': ('e%d \n' % i) if code else '', **kw}
+
+
+SERIAL_DUP_PATTERNS = [('w,w', [0, 0]), ('w,w,w', [0, 0, 0]), ('a,b,a', [0, 1, 0]), ('a,a,b,b', [0, 0, 1, 1]),
+                       ('a,b,a,b', [0, 1, 0, 1])]
+ASYNC_DUP_PATTERNS = [('w|w', [[0], [0]]), ('w|w|w', [[0], [0], [0]]), ('a|b|a', [[0], [1], [0]]),
+                      ('[a,b]|[a,b]', [[0, 1], [0, 1]]), ('[a,b]|c|[a,b]', [[0, 1], [2], [0, 1]]),
+                      ('[w,w]', [[0, 0]]), ('[w,w,b]|c', [[0, 0, 1], [2]]), ('w|[b,w]', [[0], [1, 0]]),
+                      ('[a,b]|b', [[0, 1], [1]]), ('a|a|b|b', [[0], [0], [1], [1]])]
+
+
+def alias_later(items):
+    """Every item equal to an earlier one becomes that very object again ({'ref': j})."""
+    out = []
+    for it in items:
+        j = next((k for k, x in enumerate(out) if 'ref' not in x and x == it), None)
+        out.append({'ref': j} if j is not None else it)
+    return out
+
+
+def duplicate_cases(env):
+    """Directed: identical entries. Serial: the same instruction 2-3 times / interleaved with another one, as flat
+    list, list of maps (copies; the same object again), inside one `run` list, the same `run`-list map twice x exit
+    codes {0, 3} of each distinct instruction x cmd/shell. Concurrent: the same instruction as 2-3 top-level
+    entries, [fail, ok, same fail], the same serial sub-list twice, duplicates inside one sub-list / one `run`
+    list, an instruction both top-level and last of a sub-list x exit codes x top-level list / one map per entry
+    with save (copies; the same object again) / one map whose `run` list holds them (save on, off, bytes) x
+    completion schedules x cmds/shells. Workers that wait for each other (each goes on only once all its
+    identical siblings run): 2-3 top-level entries / first of identical sub-lists."""
+    cases = []
+    j = 0
+    for name, pat in SERIAL_DUP_PATTERNS:
+        nd = max(pat) + 1
+        for codes in itertools.product((0, 3), repeat=nd):
+            ws = [W(k + 1, codes[k]) for k in range(nd)]
+            ps = [ws[k] for k in pat]
+            shapes = [('flat', {'list': [{'str': p} for p in ps]})]
+            for save in (False, True):
+                items = [{'map': {'run': {'str': p}, 'save': save}} for p in ps]
+                shapes.append((f'expanded/save={save}', {'list': items}))
+                shapes.append((f'expanded-alias/save={save}', {'list': alias_later(items)}))
+            for save, byt in ((False, False), (True, False), (True, True)):
+                m = {'map': {'run': {'list': list(ps)}, 'save': save, 'bytes': byt}}
+                shapes.append((f'runlist/save={save}/bytes={byt}', m))
+                if len(ps) <= 3:
+                    shapes.append((f'runlist-twice/save={save}/bytes={byt}', {'list': [m, copy.deepcopy(m)]}))
+                    shapes.append((f'runlist-twice-alias/save={save}/bytes={byt}', {'list': [m, {'ref': 0}]}))
+            for shape, cfg in shapes:
+                for st in ('cmd', 'shell'):
+                    j += 1
+                    if st == 'shell' and j % 2:
+                        continue
+                    cases.append({'kind': 'serial', 'step': st, 'shape': 'dup:' + shape, 'n': total_procs(cfg),
+                                  'cfg': copy.deepcopy(cfg), 'dup': name})
+    for name, pat in ASYNC_DUP_PATTERNS:
+        nd = max(k for l in pat for k in l) + 1
+        for ci, codes in enumerate(itertools.product((0, 3), repeat=nd)):
+            ws = [W(k + 1, codes[k]) for k in range(nd)]
+            lanes = [[ws[k] for k in l] for l in pat]
+            lens = [len(l) for l in lanes]
+            scheds = schedules(lens, full=True)
+
+            def entry(l):
+                return {'str': l[0]} if len(l) == 1 else {'sub': list(l)}
+            top = [entry(l) for l in lanes]
+            shapes = [('toplist', {'list': top}, scheds)]
+            own = [{'map': {'run': {'list': [entry(l)]} if len(l) > 1 else {'str': l[0]}, 'save': True}} for l in lanes]
+            shapes.append(('ownmap/save', {'list': own}, scheds[ci % len(scheds):][:2]))
+            shapes.append(('ownmap-alias/save', {'list': alias_later(own)}, scheds[(ci + 1) % len(scheds):][:2]))
+            shapes.append(('toplist-alias', {'list': alias_later(top)}, scheds[(ci + 2) % len(scheds):][:1]))
+            for k, (save, byt) in enumerate(((False, False), (True, False), (True, True))):
+                shapes.append((f'maprun/save={save}/bytes={byt}',
+                               {'map': {'run': {'list': top}, 'save': save, 'bytes': byt}},
+                               scheds[(ci + k) % len(scheds):][:2]))
+            shapes.append(('maprun-alias/save=True', {'map': {'run': {'list': alias_later(top)}, 'save': True}},
+                           scheds[(ci + 3) % len(scheds):][:1]))
+            for shape, cfg, scs in shapes:
+                if not dup_ok(cfg, True):
+                    continue
+                for sc in scs:
+                    j += 1
+                    cases.append({'kind': 'async', 'step': 'cmds' if j % 3 else 'shells', 'shape': 'dup:' + shape,
+                                  'n': total_procs(cfg), 'lanes': len(lanes), 'cfg': copy.deepcopy(cfg), 'sched': sc,
+                                  'dup': name})
+    # workers that need each other
+    for name, pat in (('rdv:w|w', [[0], [0]]), ('rdv:w|w|w', [[0], [0], [0]]), ('rdv:[w,b]|[w,b]', [[0, 1], [0, 1]]),
+                      ('rdv:w|c|w', [[0], [2], [0]])):
+        nw = sum(1 for l in pat if l[0] == 0)
+        for code in (0, 3):
+            ws = [W(1, code, rdv=nw), W(2, 0), W(3, 0)]
+            lanes = [[ws[k] for k in l] for l in pat]
+            lens = [len(l) for l in lanes]
+            scheds = schedules(lens, full=True)
+            top = [({'str': l[0]} if len(l) == 1 else {'sub': list(l)}) for l in lanes]
+            own = [{'map': {'run': {'list': [e]} if 'sub' in e else {'str': e['str']}, 'save': True}} for e in top]
+            for k, (shape, cfg) in enumerate((('toplist', {'list': top}), ('ownmap/save', {'list': own}),
+                                              ('ownmap-alias/save', {'list': alias_later(own)}),
+                                              ('maprun/save=True', {'map': {'run': {'list': top}, 'save': True}}))):
+                assert dup_ok(cfg, True), (name, shape)
+                for st in ('cmds', 'shells'):
+                    j += 1
+                    cases.append({'kind': 'async', 'step': st, 'shape': 'dup:' + shape, 'n': total_procs(cfg),
+                                  'lanes': len(lanes), 'cfg': copy.deepcopy(cfg), 'sched': scheds[j % len(scheds)],
+                                  'dup': name})
+    return dedup(cases)
+
+
 def decorate(rng, cfg, is_async, counter):
     """Random stream: give the command maps of a generated configuration an encoding / output redirection and
     some commands non-text output."""
@@ -550,19 +750,32 @@ def random_cases(env, count):
             if not isinstance(o, str):
                 p['out'], p['err'] = rng.choice(OUTS), rng.choice(OUTS)
             ps.append(p)
+        dup = None
         if serial:
             shape, cfg = rng.choice(serial_shapes(ps, n))
-            cases.append({'kind': 'serial', 'step': step, 'shape': 'rnd:' + shape, 'n': n,
-                          'cfg': decorate(rng, norm_cfg(cfg), False, counter),
-                          'prev': rng.choice(('str', 'str', 'absent', 'list'))})
+            cfg = decorate(rng, norm_cfg(cfg), False, counter)
         else:
             part = rng.choice(list(lane_partitions(n)))
             lanes = cut(ps, part)
             shape, cfg = rng.choice(async_shapes(lanes, rng.randint(0, 9)))
-            sched = [rng.randint(0, len(part)) for _ in range(rng.randint(0, 2 * n))]
             cfg = decorate(rng, norm_cfg(cfg), True, counter)
+        # identical entries: with probability ~1/3 something is declared a second (third) time
+        for _ in range(2):
+            if rng.random() < 0.33:
+                c2 = add_dups(rng, cfg, not serial)
+                if c2 is not None:
+                    cfg, dup = c2, 'rnd'
+        n = total_procs(cfg)
+        if serial:
+            cases.append({'kind': 'serial', 'step': step, 'shape': 'rnd:' + shape, 'n': n, 'cfg': cfg,
+                          'prev': rng.choice(('str', 'str', 'absent', 'list'))})
+        else:
+            nl = len(impl.async_lanes(cfg))
+            sched = [rng.randint(0, nl) for _ in range(rng.randint(0, 2 * n))]
             cases.append({'kind': 'async', 'step': step, 'shape': 'rnd:' + shape, 'n': n,
-                          'lanes': len(impl.async_lanes(cfg)), 'cfg': cfg, 'sched': sched})
+                          'lanes': nl, 'cfg': cfg, 'sched': sched})
+        if dup:
+            cases[-1]['dup'] = dup
     return cases
 
 
@@ -778,7 +991,7 @@ def monitor_serial(case, o):
     und = next(((p, c) for p, c in run if undecodable(p, c, False)), None)
     if und and o['err'] is not None and error_key(o['err'])[:2] == ('decode', und[0]['id']):
         p, c = und
-        later = [q['id'] for q, _ in run if q['id'] > p['id']]
+        later = [q['id'] for q, _ in run[[id(x) for x, _ in run].index(id(p)) + 1:]]
         return [('serial:undecodable-output-fails-step',
                  f"command {p['id']} ran and exited {p['code']}; its captured output {impl.eff_out(p)[:12]!r}/"
                  f"{impl.eff_err(p)[:12]!r} is not text in {c['enc'] or 'the default encoding'}: the step raises "
@@ -789,7 +1002,7 @@ def monitor_serial(case, o):
     if o['started'] != [p['id'] for p, _ in run]:
         bad.append(('serial:started-not-declaration-prefix-through-first-failure',
                     f"started {o['started']}, declaration {[(p['id'], fault_of(p), p['code']) for p in procs]}"))
-    by_id = {p['id']: p for p in procs}
+    by_id = {p['id']: p for p in procs}     # one content per id
     # success iff every command it ran exited 0 - judged on what it did run (marker files) and on what it had
     # to attempt (a command that cannot be started has not exited 0 either)
     ran_nonzero = [(i, by_id[i]['code']) for i in o['started'] if i in by_id and by_id[i]['code'] != 0]
@@ -803,7 +1016,9 @@ def monitor_serial(case, o):
                 ('id' in o['err'] and (not o['err'].get('cmd_ok') or o['err'].get('type') != 'subprocess.CalledProcessError')):
             bad.append(('serial:error-carries-first-failing-command-and-code',
                         f"error {o['err']}, first failure {first_fail}"))
-    want = [(p, c) for (p, c) in run if c['save'] and p['id'] in o['started']]
+    # one result per command actually run (per occurrence: the k-th command run is the k-th of the declaration)
+    nrun = len(o['started']) if o['started'] == [p['id'] for p, _ in run][:len(o['started'])] else len(run)
+    want = [(p, c) for (p, c) in run[:nrun] if c['save']]
     bad += check_results(o['results'], want, 'serial', False)
     # cmdOut belongs to `save`: a step none of whose commands saves leaves context['cmdOut'] exactly as it found it.
     # (With `save` and no result the code also leaves it - a stale value of an earlier step survives -: the
@@ -859,8 +1074,16 @@ def monitor_async(case, o):
                        f"{c['enc'] or 'the default encoding'}: the aggregate error lists "
                        f"{[e for e in o['errors'] if 'decode' in e]} - not an exit status -, cmdOut holds the exception "
                        f"object in place of its result, a serial sub-list ends there (started {o['started']})", UNDEC)]
-    if o['started'] != sorted(want_started):
-        bad.append(('async:started-set', f"started {o['started']}, expected {sorted(want_started)}"))
+    got_c, want_c = collections.Counter(o['started']), collections.Counter(want_started)
+    if got_c != want_c:
+        missing, surplus = sorted((want_c - got_c).elements()), sorted((got_c - want_c).elements())
+        if missing and not surplus:
+            # fewer processes than declared occurrences (an entry identical to another one counts)
+            bad.append(('async:every-declared-entry-started',
+                        f"never started: {missing} (one per missing occurrence); started {sorted(o['started'])}, declared "
+                        f"to be started {sorted(want_started)}"))
+        else:
+            bad.append(('async:started-set', f"started {o['started']}, expected {sorted(want_started)}"))
     got_fail = sorted(error_key(e) for e in o['errors'])
     if any(k[0] == 'other' for k in got_fail):
         bad.append(('async:unexpected-error', str([e for e in o['errors'] if error_key(e)[0] == 'other'])[:300]))
@@ -979,6 +1202,10 @@ def judge(res, c, m, o):
                                               ('file:' + (t.get('bad') or ('append' if cm['append'] else 'write')))))
     if c.get('big'):
         res.count(f"big-output:{c['kind']}")
+    if c.get('dup'):
+        res.count(f"identical-entries:{c['kind']}:{c['dup']}")
+        if 'ref' in json.dumps(c['cfg']):
+            res.count(f"identical-entries:{c['kind']}:same-object")
     if 'pos' in c:
         res.count(f"faultpos:{c['kind']}:{c['fault']}@{c['pos']}")
     if c['kind'] == 'async':
@@ -1045,7 +1272,15 @@ DIRECTED_CFG = [
     (True, ['p1', {'run': 'p2', 'save': True}, {'run': ['p3', 'p4'], 'stdout': '@f1'}]),
     (True, ['p1', {'run': 'p2', 'save': True, 'stderr': '@f2'}, 'p3']), (True, ['p1', {'save': True}, 5]),
     (True, [{'run': ''}, 5]), (True, [5, {'run': ''}]), (True, ('p1', {'run': 'p2'})), (True, ['p1', {'s'}]),
+    # identical entries
+    (True, ['p1', 'p1']), (True, ('p1', 'p1', 'p1')), (True, ['p1', 'p2', 'p1']), (True, [['p1', 'p2'], ['p1', 'p2']]),
+    (True, [{'run': 'p1', 'save': True}, {'run': 'p2'}, {'run': 'p1', 'save': True}]), (True, {'run': ['p1', 'p1']}),
+    (True, {'run': ['p1', ['p2', 'p2'], 'p1', ['p2', 'p2']], 'save': True}),
+    (True, [{'run': ['p1', 'p2']}, {'run': ['p1', 'p2']}]), (True, ['p1', {'run': 'p1'}, ['p1']]),
 ]
+_ALIAS = {'run': ['p1', 'p2'], 'save': True}
+_SUB = ['p1', 'p2']
+DIRECTED_CFG += [(True, [_ALIAS, 'p3', _ALIAS]), (True, [_SUB, _SUB]), (True, {'run': [_SUB, 'p1', _SUB]})]
 
 
 def gen_cfg_value(rng, is_async):
@@ -1217,16 +1452,22 @@ def run(env, res):
                 'configurations also through run_step). Each process case runs in its own process group under a '
                 '25 s deadline: a step that does not return is a violation (step-never-returned) with the case as '
                 'replay; for cmds/shells the commands still running at the moment the step returns are observed '
-                '(must be none).')
+                '(must be none). directed F: identical entries - the same instruction / serial sub-list / map (a copy, or '
+                'the same object again) declared 2-3 times at top level, duplicates inside one run list / one sub-list, '
+                '[fail, ok, same fail], workers that wait for their identical siblings - x exit codes x shapes x '
+                'schedules, all four steps; the random stream declares something a second time with probability '
+                '~1/3. Every process claims the next free occurrence slot of its instruction: starts, exits, '
+                'failures and results are counted per occurrence.')
     check_parse(env, res, env.n(1500, 20000))
     ser, asy = serial_cases(env), async_cases(env)
     fser, fasy = serial_fault_cases(env), async_fault_cases(env)
     big = big_output_cases(env)
     dec = decode_cases(env)
     red = redirect_cases(env)
+    dup = duplicate_cases(env)
     res.extra['directed_set'] = {'serial': len(ser), 'async': len(asy), 'serial_faults': len(fser),
                                  'async_faults': len(fasy), 'big_outputs': len(big), 'undecodable': len(dec),
-                                 'redirects': len(red)}
+                                 'redirects': len(red), 'identical_entries': len(dup)}
     if env.quick:
         def allzero(c):
             return all(not failed(p) for p in case_procs(c).values())
@@ -1240,9 +1481,10 @@ def run(env, res):
         big = stratified(env.rng, big, lambda c: (c['kind'], c['shape'].split('/')[0]), 3)
         dec = stratified(env.rng, dec, lambda c: (c['kind'], c['decode'], c['fault']), 4)
         red = stratified(env.rng, red, lambda c: (c['kind'], c['redirect']), 3)
+        dup = stratified(env.rng, dup, lambda c: (c['kind'], c['dup']), 5)
     else:
         rnd = random_cases(env, 1200)
-    cases = dec + red + fser + fasy + big + ser + asy + rnd
+    cases = dup + dec + red + fser + fasy + big + ser + asy + rnd
     k = 0
     for c in cases:
         if c['kind'] == 'serial' and 'prev' not in c:
